@@ -742,7 +742,7 @@ fn main() {
     }
 
     // F. random rounds on top
-    let rounds = ctx.scale(40, 30000, 600000);
+    let rounds = ctx.scale(40, 150000, 600000);
     let nmax = ctx.scale(130, 6000, 60000);
     for r in 0..rounds {
         let mut g = ctx.rng(r as u64);
